@@ -357,3 +357,44 @@ pub fn scope_program(rng: &mut Rng) -> Program {
     p.rels = vec![rel0, rel1];
     p
 }
+
+/// C14: committed choice written in surface syntax as the main goal of the program: bracketed
+/// clauses `[head, rest...]`, heads incl. the literals `true` / `false` (deterministic heads, so
+/// the soft-cut reference is unambiguous), multi-answer rest goals, onceo.
+pub fn commit_surface_program(rng: &mut Rng) -> Program {
+    let q: Vec<V> = vec![0, 1];
+    let var = |rng: &mut Rng| T::Var(q[rng.below(2)]);
+    let mut body = vec![];
+    if rng.chance(1, 3) {
+        body.push(G::Eq(var(rng), lit(rng)));
+    }
+    let nc = 1 + rng.below(3);
+    let mut cs = vec![];
+    for _ in 0..nc {
+        let head = match rng.below(6) {
+            0 | 1 | 2 => G::Succeed,
+            3 => G::Fail,
+            4 => G::Eq(lit(rng), lit(rng)),
+            _ => G::Eq(var(rng), lit(rng)),
+        };
+        let mut c = vec![head];
+        for _ in 0..rng.below(3) {
+            let x = var(rng);
+            c.push(match rng.below(5) {
+                0 | 1 | 2 => G::Call(Rel::Member, vec![x, T::list((0..2 + rng.below(2)).map(|_| lit(rng)).collect())]),
+                3 => G::Eq(x, lit(rng)),
+                _ => G::Diseq(x, lit(rng)),
+            });
+        }
+        cs.push(c);
+    }
+    body.push(match rng.below(5) {
+        0 | 1 => G::Conda(cs),
+        2 | 3 => G::Condu(cs),
+        _ => G::Onceo(vec![vec![G::Call(Rel::Member, vec![var(rng), T::list(vec![lit(rng), lit(rng), lit(rng)])])], vec![G::Succeed]]),
+    });
+    if rng.chance(1, 3) {
+        body.push(G::Diseq(var(rng), lit(rng)));
+    }
+    Program::new(q, body)
+}
